@@ -31,10 +31,13 @@ def main():
     checks = checks or [prop]
     out = f'{V}/seeded/{name}'
     os.makedirs(out, exist_ok=True)
-    shutil.copy(patch, f'{out}/patch.diff')
-    shutil.copy(demo, f'{out}/' + os.path.basename(demo))
+    def cp(a, b):
+        if os.path.abspath(a) != os.path.abspath(b):
+            shutil.copy(a, b)
+    cp(patch, f'{out}/patch.diff')
+    cp(demo, f'{out}/' + os.path.basename(demo))
     if notes and os.path.exists(notes):
-        shutil.copy(notes, f'{out}/notes.md')
+        cp(notes, f'{out}/notes.md')
     meta = {'name': name, 'property': prop, 'patch': 'patch.diff', 'demonstration': os.path.basename(demo), 'ran': []}
     tests = re.findall(r'^func (Test\w+)\(', open(demo).read(), flags=re.M)
     runre = '^(' + '|'.join(tests) + ')$'
